@@ -667,7 +667,12 @@ class Interp:
                     if st.decide(zy == 0):
                         self.raise_py("ZeroDivisionError", "", site)
                     if not st.proves(zy > 0):
-                        raise Unsupported("division by possibly negative symbolic divisor")
+                        if st.decide(zy < 0):
+                            # Python floors towards minus infinity and the remainder takes the divisor's sign:
+                            # x // y == (-x) // (-y)  and  x % y == -((-x) % (-y)), with a positive divisor on the right
+                            if isinstance(op, ast.FloorDiv):
+                                return simp((-zx) / (-zy))
+                            return simp(-((-zx) % (-zy)))
             return simp(zx / zy) if isinstance(op, ast.FloorDiv) else simp(zx % zy)
         if isinstance(op, ast.LShift):
             if is_conc(y):
